@@ -204,6 +204,10 @@ func (e *c11Env) SignValidatorRegistration(_ context.Context, a e2wtypes.Account
 	if e.failing == "signer2" && a.Name() == "v2" {
 		return phase0.BLSSignature{}, errors.New("scripted signer failure")
 	}
+	if e.failing == "signer-high" && fmt.Sprint(r.V1.GasLimit) == gasHigh {
+		// the signer refuses exactly the registrations that carry the raised gas limit (one relay's, under D2)
+		return phase0.BLSSignature{}, errors.New("scripted signer failure for one relay's registration")
+	}
 	m := r.V1
 	if a.(*hAccount).pubkey() != m.Pubkey {
 		e.malformed = true
@@ -228,7 +232,7 @@ func (m *c11Majordomo) Fetch(_ context.Context, _ string) ([]byte, error) {
 
 func c11Units(tier string) []hx.Unit {
 	docs := c11Docs()
-	fails := []string{"", "relay1", "node1", "signer2", "node1-inactive"}
+	fails := []string{"", "relay1", "node1", "signer2", "node1-inactive", "signer-high"}
 	rounds := 3
 	var units []hx.Unit
 	for d0 := range docs {
@@ -365,6 +369,11 @@ func c11Check(e *c11Env, r *mc.Result) mc.Verdict {
 					want, listed = exp.relays[addr]
 				}
 				relayDown := failing == "relay1" && addr == c11R1
+				if failing == "signer-high" && listed && want[1] == gasHigh {
+					// this one registration cannot be signed in this round: it may be missing or served from an
+					// earlier signature; the validator's registrations with the other relays are judged as usual
+					continue
+				}
 				switch {
 				case !listed || relayDown:
 					if len(got) > 0 && !relayDown {
@@ -379,7 +388,7 @@ func c11Check(e *c11Env, r *mc.Result) mc.Verdict {
 						why = "failing-relay"
 					case failing == "node1":
 						why = "failing-node"
-					case failing == "signer2":
+					case failing == "signer2", failing == "signer-high":
 						why = "failing-signer"
 					}
 					return fail("registration-missing/other-party-"+why, fmt.Sprintf("round %d: validator %d was not registered with %s although its settings resolve to it (failing party: %q, document %s)", rd, vi, addr, failing, dn))
@@ -467,7 +476,7 @@ func init() {
 	hx.Register(&hx.Prop{
 		ID:    "C11",
 		Title: "Relays and beacon nodes are told exactly what the configuration says",
-		Rule: "histories of 1..3 registration rounds on the real block relay + proposal preparer with 3 validators, 2 relays, 2 beacon nodes: per round the configuration in force (5 documents: plain, relay gas-limit override, proposer entry with own fee recipient and a disabled relay, single relay, one validator unresolvable) x failing party (none, relay 1, node 1, signer for validator 2, node 1 reporting not-active), a refresh preceding each round; then REST registrations for a controlled and an uncontrolled validator; fan-out goroutines under deviation-bounded schedules (quick 0, thorough 1); " +
+		Rule: "histories of 1..3 registration rounds on the real block relay + proposal preparer with 3 validators, 2 relays, 2 beacon nodes: per round the configuration in force (5 documents: plain, relay gas-limit override, proposer entry with own fee recipient and a disabled relay, single relay, one validator unresolvable) x failing party (none, relay 1, node 1, signer for validator 2, signer for the registrations that carry the raised gas limit of one relay, node 1 reporting not-active), a refresh preceding each round; then REST registrations for a controlled and an uncontrolled validator; fan-out goroutines under deviation-bounded schedules (quick 0, thorough 1); " +
 			"oracle: per round and relay exactly one registration per resolved validator with the resolved fee recipient / gas limit and a signature produced for exactly that content, a preparation per validator and node with the resolved fee recipient, other parties unaffected by a failing one; non-trivial = more than one round, a failing party or a proposer-specific document",
 		Assumptions: []string{
 			"expected settings per document are written out by hand from the documented precedence (C10 checks the resolver itself)",
